@@ -28,7 +28,7 @@ type hierCase struct {
 }
 
 func genProbes(t *rapid.T, dims int) []probe {
-	n := rapid.IntRange(4, 12).Draw(t, "nprobes")
+	n := gen.Int(t, 4, 12, "nprobes")
 	var ps []probe
 	for i := 0; i < n; i++ {
 		p := probe{Sel: gen.F(t, 0, 0.999, "sel")}
@@ -46,7 +46,7 @@ func genHier(t *rapid.T) hierCase {
 		l := gen.Lattice3Gen(t, 5, "biglattice")
 		c.Spec.Lat = &l
 	}
-	if rapid.IntRange(0, 2).Draw(t, "reorient") == 0 {
+	if gen.Int(t, 0, 2, "reorient") == 0 {
 		c.Flip = genIdx(t, 6, "flip")
 	}
 	c.Probes = genProbes(t, 3)
@@ -465,7 +465,7 @@ func genHier2(t *rapid.T) hier2Case {
 		l := gen.Lattice2Gen(t, 9, "biglattice")
 		c.Spec.Lat = &l
 	}
-	if rapid.IntRange(0, 2).Draw(t, "reorient") == 0 {
+	if gen.Int(t, 0, 2, "reorient") == 0 {
 		c.Flip = genIdx(t, 6, "flip")
 	}
 	c.Probes = genProbes(t, 2)
